@@ -1,4 +1,5 @@
 """C03  Concurrent requests and changes never corrupt each other's answers."""
+from collections import Counter
 import itertools, os, random, shutil, tempfile, time
 from concurrent.futures import ThreadPoolExecutor
 from vlib import core, diff, lsp
@@ -131,15 +132,27 @@ def correspondence(ctx, broken_obligations=()):
     cases = ["%s;%s" % (s, k) for s in MODEL for k in KINDS]
     reps = 2 if ctx.quick else 10
     cases = cases * reps
+    # two parked requests: every pair of request-side yield points x both release orders x both start states
+    # (hooks 0..3 = analyze:after_cache_check, annotate:after_publish_tree, doc:between_read_and_write_lock,
+    #  entity:between_lookup_and_insert); a request that blocks before its yield point is simply not parked
+    two = ["two:%s:%d:%d:%s;%s" % (st, a, b, o, k) for st in ("fresh", "changed") for a in range(4) for b in range(4)
+           for o in ("ab", "ba") for k in KINDS]
+    cases = cases + two * (1 if ctx.quick else 3)
+
+    def model_case(c):
+        sc = c.split(";")[0]
+        if sc.startswith("two:"):
+            return MODEL["parse_pair"] if sc.split(":")[1] == "fresh" else MODEL["analyze_pair"]
+        return MODEL[sc]
     outs = core.run_lines(hb, "sched", cases, shards=min(core.NCPU, len(cases)))
-    preds = core.run_lines(mb, "sched", [MODEL[c.split(";")[0]] for c in cases], shards=1)
+    preds = core.run_lines(mb, "sched", [model_case(c) for c in cases], shards=1)
     for c, o, p in zip(cases, outs, preds):
         bad = None
         if o.startswith(("PANIC", "CRASH", "SETUP-BAD", "NOHOOKS", "BAD")):
             bad = "forced-schedule engine: " + o
         else:
             fields = dict(f.split("=") for f in o.split())
-            if fields.get("hook") != "true":
+            if fields.get("hook") != "true" and not c.startswith("two:"):
                 bad = "the yield point of scenario %s was never reached: the hook or the code path is gone" % c
             else:
                 model_versions = [a.split(":")[0] for a in p.split()]
@@ -161,6 +174,12 @@ def correspondence(ctx, broken_obligations=()):
             v = core.Violation(bad, path, True)
             v.coverage = cov
             raise v
+    parked = Counter()
+    for c, o in zip(cases, outs):
+        if c.startswith("two:"):
+            f = dict(x.split("=") for x in o.split())
+            parked["%s+%s" % (f.get("hook"), f.get("hookb"))] += 1
+    cov["two_gate_schedules_parked_a+b"] = dict(parked)
     cov.update(forced_schedules=len(cases), forced_sample=[cases[0] + " -> " + outs[0], cases[-1] + " -> " + outs[-1]])
     # (B) pipelined stress against the real binary
     binary = lsp.build_server()
